@@ -1,5 +1,6 @@
 import BlobfinderModel.Proofs.Eval
 import BlobfinderModel.Proofs.FourierBridge
+import BlobfinderModel.Proofs.Rfft
 import BlobfinderModel.Proofs.Kernels
 import BlobfinderModel.Properties.C19
 /-!
@@ -308,6 +309,37 @@ theorem corr_is_fft_route (mask data : ℤ → ℤ → ℚ) (H W : ℕ) [NeZero 
       = Fourier.invDft2 (fun k1 k2 => Fourier.dft2 (liftZ H W mask) k1 k2 * Fourier.dft2 (liftZ H W data) k1 k2)
           (((y + (H : ℤ) / 2) % (H : ℤ) : ℤ) : ZMod H) (((x + (W : ℤ) / 2) % (W : ℤ) : ℤ) : ZMod W)) := by
   constructor <;> rw [corrMap_eq_invDft2] <;> rfl
+
+/-- the rational image as a real image on the torus -/
+noncomputable def liftR (H W : ℕ) (f : ℤ → ℤ → ℚ) : ZMod H → ZMod W → ℝ :=
+  fun a b => ((f (a.val : ℤ) (b.val : ℤ) : ℚ) : ℝ)
+
+theorem liftZ_eq_liftR (H W : ℕ) (f : ℤ → ℤ → ℚ) :
+    liftZ H W f = fun a b => ((liftR H W f a b : ℝ) : ℂ) := by
+  funext a b
+  unfold liftZ liftR
+  push_cast
+  rfl
+
+/-- **the route of the code, as written, for every frame shape and both pipelines**: the model's correlation map at
+`(y, x)` is `ifftshift(irfft2(rfft2(mask) * rfft2(data), s=(H, W)))[y, x]`, where `rfft2` keeps the column frequencies
+`0 … W/2` of the 2-D DFT and `irfft2(·, s)` inverts the Hermitian extension of such a half spectrum
+(`Fourier.rfft2`, `Fourier.irfft2`: the documented meaning of the NumPy calls — the remaining content of A-FFT, besides
+rounding).  Odd `W` included: the half spectrum of width `W/2 + 1` does not determine `W` (`Fourier.half_spectrum_ambiguous`),
+which is why the explicit `s=` is needed (defect D1). -/
+theorem corr_is_rfft_route (mask data : ℤ → ℤ → ℚ) (H W : ℕ) [NeZero H] [NeZero W] (y x : ℤ) :
+    (((corrMap Gen.fast_corr_shift mask data H W y x : ℚ) : ℂ)
+      = Fourier.irfft2 (W := W) (fun a m => Fourier.rfft2 (liftZ H W mask) a m * Fourier.rfft2 (liftZ H W data) a m)
+          (((y + (H : ℤ) / 2) % (H : ℤ) : ℤ) : ZMod H) (((x + (W : ℤ) / 2) % (W : ℤ) : ℤ) : ZMod W)) ∧
+    (((corrMap Gen.full_corr_shift mask data H W y x : ℚ) : ℂ)
+      = Fourier.irfft2 (W := W) (fun a m => Fourier.rfft2 (liftZ H W mask) a m * Fourier.rfft2 (liftZ H W data) a m)
+          (((y + (H : ℤ) / 2) % (H : ℤ) : ℤ) : ZMod H) (((x + (W : ℤ) / 2) % (W : ℤ) : ℤ) : ZMod W)) := by
+  have key : Fourier.irfft2 (W := W) (fun a m => Fourier.rfft2 (liftZ H W mask) a m * Fourier.rfft2 (liftZ H W data) a m)
+      = Fourier.cconv2 (liftZ H W mask) (liftZ H W data) := by
+    rw [liftZ_eq_liftR H W mask, liftZ_eq_liftR H W data]
+    exact Fourier.irfft2_mul_rfft2 (liftR H W mask) (liftR H W data)
+  rw [key]
+  constructor <;> rw [corrMap_eq_cconv2] <;> rfl
 
 /-- the spectra multiplied by the implementation are Hermitian (real inputs), and so is their
 product — the half spectrum kept by `rfft2` determines the whole, and `irfft2` returns a real map -/
